@@ -19,7 +19,7 @@ class Knobs:
         self.n_ops = 26
         self.w = {'event': 3, 'binary': 1, 'ack': 2, 'emit': 2, 'emit_cb': 2, 'send': 0.5, 'call': 1.5,
                   'server_disc': 0.8, 'disconnect': 0.45, 'loss': 0.45, 'server_close': 0.3, 'reconnect': 0.25,
-                  'bad_ns': 0.7, 'late': 1.0, 'junk': 0.25, 'second_disc': 0.08, 'late_refuse': 0.0}
+                  'bad_ns': 0.7, 'late': 1.0, 'junk': 0.25, 'second_disc': 0.08, 'late_refuse': 0.0, 'nested': 0.0}
         self.p_wait = 0.75
         self.p_eio_fail = 0.07
         self.p_refuse = 0.10          # per requested namespace, inside the window
@@ -272,6 +272,52 @@ def gen_ops(rng, k, sh, kind):
         args = [values.gen_json(rng, 2, bytes_ok=False) for _ in range(rng.randrange(0, 3))]
         pid = rng.choice([None, None, 0, 1, 2, 7, rng.randrange(1000)])
         return [msg(frame(2, ns, pid, [ev] + args))]
+    if kind == 'nested':
+        # re-entrant delivery (Client/ClientX.v): while the handler of an event runs, the next frame arrives
+        if not (sh.live and sh.acc) or sh.binary_open:
+            return None
+        ns = rng.choice(sorted(sh.acc))
+        others = [n for n in sorted(sh.acc) if n != ns] or [ns]
+        r = rng.random()
+        follow = []
+        if r < 0.4:
+            inner = frame(2, rng.choice(others), rng.choice([None, 3, 12]), [rng.choice(['ev', 'msg', 'other'])] +
+                          [values.gen_json(rng, 1, bytes_ok=False) for _ in range(rng.randrange(0, 2))])
+            sh.note('nested-event')
+        elif r < 0.75:
+            with_ids = sorted(n for n, l in sh.ids.items() if l)
+            if with_ids and rng.random() < 0.8:
+                n2 = rng.choice(with_ids)
+                pid = rng.choice(sh.ids[n2])
+                sh.ids[n2].remove(pid)
+                sh.note('nested-ack-correct')
+            else:
+                n2, pid = rng.choice(others), rng.choice([0, 1, 9])
+                sh.note('nested-ack-unknown')
+            inner = frame(3, n2, pid, rng.choice([[], ['ok'], [1, {'a': 2}]]))
+        else:
+            n2 = rng.choice(others)
+            inner = frame(5, n2, rng.choice([None, 8]), ['ev', {'_placeholder': True, 'num': 0}], natt=1)
+            if rng.random() < 0.8:
+                follow = [('msg', b'\x07\x08')]
+            else:
+                sh.binary_open = 1
+                sh.note('binary-left-open')
+            sh.note('nested-binary-header')
+        ev = rng.choice(['ev', 'ev', 'msg'])
+        pid = rng.choice([None, 4, 4, 21])
+        if rng.random() < 0.6:
+            n = rng.choice([1, 1, 2])
+            data = [ev] + [{'_placeholder': True, 'num': i} for i in range(n)] + ['tail']
+            out = [msg(frame(5, ns, pid, data, natt=n))]
+            for i in range(n - 1):
+                out.append(('msg', bytes([i, 200 + i])))
+            out.append(('msg_nested', bytes([n, 100]), eio_decode(inner)))
+            sh.note('nested-in-binary-event')
+        else:
+            out = [('msg_nested', eio_decode(frame(2, ns, pid, [ev, rng.choice([1, 'a', [2]])])), eio_decode(inner))]
+            sh.note('nested-in-text-event')
+        return out + follow
     if kind == 'binary':
         ns = pick_ns(rng, sh)
         n = rng.choice([1, 1, 2])
